@@ -90,7 +90,9 @@ fn main() {
     unsafe {
         rusqlite::ffi::sqlite3_config(rusqlite::ffi::SQLITE_CONFIG_MEMSTATUS, 0 as std::os::raw::c_int);
     }
-    let code = if args.len() >= 3 && args[1] == "--replay" {
+    let code = if args.len() >= 2 && args[1] == "_nettest" {
+        vlib::net_selftest()
+    } else if args.len() >= 3 && args[1] == "--replay" {
         vlib::run_replay(&args[2])
     } else if args.len() >= 3 {
         let tier = match args[2].as_str() {
